@@ -37,7 +37,8 @@ func main() {
 	}
 	// compressed waits: no retry back-off sleep; the claim-payment retry loop gets an unbounded time budget and is ended by
 	// the simulated chain after 12 attempts; the real retransmission tickers never fire (their firing is a scheduler step)
-	swap.VerifSetTiming(true, 300*time.Millisecond, 100*time.Microsecond, time.Hour)
+	// (the 3 s wall budget of that loop is only a backstop for changed code that no longer consults the chain inside the loop)
+	swap.VerifSetTiming(true, 3*time.Second, 100*time.Microsecond, time.Hour)
 	f, err := os.Open(*in)
 	if err != nil {
 		log.Fatal(err)
